@@ -64,6 +64,12 @@ func c18Points(c *core.Case, n int, gen func() pt) ([]pt, []*object.Point, bool)
 				p = q
 			case 1:
 				p.lon, p.lat = q.lon, q.lat // vertical stack: same lon/lat, other altitude
+				switch r.Intn(4) {
+				case 0:
+					p.alt = -q.alt // mirrored altitude (for q.alt = +-0 this is the other zero: equal as numbers, different bits)
+				case 1:
+					p.alt = []float64{0, math.Copysign(0, -1)}[r.Intn(2)]
+				}
 			}
 		}
 		o, err := object.NewPoint(p.lon, p.lat, p.alt)
@@ -310,6 +316,16 @@ func c18Unknown(c *core.Case) {
 	if r.Bool() {
 		code = int(r.Range(-100000, 100000))
 	}
+	if r.P(0.3) { // a code that equals a known one modulo 2^32 (truncation to 32 bits)
+		code = c18Codes[r.Intn(len(c18Codes))]
+		if r.P(0.5) {
+			code = 3857
+		}
+		code += int(r.Range(-3, 3)) << 32
+		if code == 3857 {
+			code += 1 << 32
+		}
+	}
 	for known[code] {
 		code++
 	}
@@ -329,6 +345,11 @@ func c18Unknown(c *core.Case) {
 		c.Fail("projection-error", nil, "EPSG:3857 refused valid points: %v", err)
 		return
 	}
+	if _, e := shape.ConvertProjectedPointListToPointList(good, 3857); e != nil { // both directions used successfully before
+		c.Fail("projection-error", nil, "EPSG:3857 inverse refused: %v", e)
+		return
+	}
+	c.Call()
 	for rep := 0; rep < 2; rep++ {
 		p, e := shape.ConvertPointListToProjectedPointList(objs, code)
 		c.Call()
